@@ -920,6 +920,23 @@ impl<'a> Tr<'a> {
             }
             _ => {}
         }
+        if mode == "mutresult" {
+            // Result<(), E> of a function that mutates self, with the state kept on BOTH outcomes:
+            // Ok (Ok tt | Err e, final versions of the retvars)
+            if let Expr::Call(c) = e {
+                let f = toks(&c.func);
+                let vars = self.retvars_value()?;
+                let st = vars.strip_prefix("Ok ").unwrap_or(&vars).to_string();
+                if f == "Ok" && c.args.len() == 1 && toks(&c.args[0]) == "()" {
+                    return Ok(format!("Ok (Ok tt, {})", st));
+                }
+                if f == "Err" && c.args.len() == 1 {
+                    let v = self.error_value(&c.args[0], binds)?;
+                    return Ok(format!("Ok (Err {}, {})", v, st));
+                }
+            }
+            return Err(format!("returned expression not in the subset (mutresult): {}", toks(e)));
+        }
         if mode == "mutself" {
             if let Expr::Call(c) = e {
                 let f = toks(&c.func);
@@ -1147,6 +1164,7 @@ impl<'a> Tr<'a> {
                                 continue;
                             }
                             let sc = Scan {
+                                err_is_value: false,
                                 unit_return: false,
                                 helpers: out.clone(),
                                 has_break: false,
@@ -1169,6 +1187,7 @@ impl<'a> Tr<'a> {
     fn mk_scan(&self) -> Scan {
         Scan {
             helpers: self.helper_effects(),
+            err_is_value: self.mode() == "mutresult",
             unit_return: false,
             has_break: false,
             value_return: false,
@@ -2496,6 +2515,7 @@ impl<'a> Tr<'a> {
 
 // ---- does a piece of code return a (non-error) VALUE early, and which variables does it assign?
 struct Scan {
+    err_is_value: bool, // mode mutresult: `return Err(..)` does not short-circuit through the monad, it is a value
     unit_return: bool, // a bare `return;`
     has_break: bool,
     value_return: bool,
@@ -2516,7 +2536,7 @@ impl<'ast> syn::visit::Visit<'ast> for Scan {
         if r.expr.is_none() {
             self.unit_return = true;
         }
-        if !is_err {
+        if !is_err || self.err_is_value {
             self.value_return = true;
         }
         syn::visit::visit_expr_return(self, r);
